@@ -392,6 +392,10 @@ pub struct Report {
     pub extra: BTreeMap<String, Value>,
     pub started: Instant,
     pub sub_stats: BTreeMap<String, Value>,
+    /// write a partial result (merged later by the main run) instead of evidence
+    pub partial_out: Option<String>,
+    /// partial results of companion runs (other build profiles / engines) to merge in
+    pub merge_files: Vec<String>,
 }
 
 impl Report {
@@ -408,6 +412,8 @@ impl Report {
             extra: BTreeMap::new(),
             started: Instant::now(),
             sub_stats: BTreeMap::new(),
+            partial_out: None,
+            merge_files: vec![],
         }
     }
 
@@ -521,6 +527,70 @@ pub fn write_replay(f: &Failure) -> String {
 
 /// Writes evidence, prints VIOLATION / KNOWN-FINDING lines, returns the process exit code.
 pub fn finish(mut rep: Report) -> i32 {
+    if let Some(path) = rep.partial_out.clone() {
+        let fails: Vec<Value> = rep
+            .failures
+            .iter()
+            .map(|f| json!({"sub": f.sub, "message": f.message, "signature": f.signature, "case": f.case}))
+            .collect();
+        let body = json!({
+            "evaluations": rep.stats.evaluations,
+            "distinct_nontrivial": rep.stats.nt_total(),
+            "classes": rep.stats.classes,
+            "samples": rep.stats.samples,
+            "sub_checks": rep.sub_stats,
+            "failures": fails,
+            "wall_s": rep.started.elapsed().as_secs_f64(),
+        });
+        std::fs::write(&path, serde_json::to_string_pretty(&body).unwrap()).expect("write partial");
+        println!(
+            "{} partial -> {} evaluations={} failures={}",
+            rep.property,
+            path,
+            rep.stats.evaluations,
+            rep.failures.len()
+        );
+        return 0;
+    }
+    for path in rep.merge_files.clone() {
+        let tag = std::path::Path::new(&path)
+            .file_stem()
+            .map(|s| s.to_string_lossy().to_string())
+            .unwrap_or_default();
+        let Ok(text) = std::fs::read_to_string(&path) else {
+            eprintln!("INCONCLUSIVE: companion result {path} missing");
+            return 2;
+        };
+        let v: Value = serde_json::from_str(&text).unwrap_or(Value::Null);
+        rep.stats.evaluations += v["evaluations"].as_u64().unwrap_or(0);
+        rep.stats.nontrivial_enumerated += v["distinct_nontrivial"].as_u64().unwrap_or(0);
+        if let Some(m) = v["classes"].as_object() {
+            for (k, n) in m {
+                *rep.stats.classes.entry(format!("{tag}:{k}")).or_insert(0) += n.as_u64().unwrap_or(0);
+            }
+        }
+        if let Some(m) = v["sub_checks"].as_object() {
+            for (k, n) in m {
+                rep.sub_stats.insert(format!("{tag}:{k}"), n.clone());
+            }
+        }
+        if let Some(a) = v["samples"].as_array() {
+            for s in a.iter().take(3) {
+                rep.stats.samples.push(json!({"companion": tag, "sample": s}));
+            }
+        }
+        if let Some(a) = v["failures"].as_array() {
+            for f in a {
+                rep.failures.push(Failure {
+                    property: rep.property.to_string(),
+                    sub: f["sub"].as_str().unwrap_or("").to_string(),
+                    message: format!("[{tag}] {}", f["message"].as_str().unwrap_or("")),
+                    signature: f["signature"].as_str().unwrap_or("").to_string(),
+                    case: f["case"].clone(),
+                });
+            }
+        }
+    }
     let known = load_known_findings();
     let mut violations = 0;
     let mut known_hits: Vec<String> = vec![];
